@@ -381,6 +381,8 @@ def build_scene_bvh(mjm: mujoco.MjModel, mjd: mujoco.MjData, rc: RenderContext, 
 
 def refit_scene_bvh(m: Model, d: Data, rc: RenderContext):
   total_bvh_size = rc.bvh_ngeom + rc.bvh_nflexgeom
+  if total_bvh_size == 0:
+    return
 
   wp.launch(
     kernel=_compute_bvh_bounds,
